@@ -942,9 +942,18 @@ def render_vcase(vc):
         else:
             forms.append(("partial", "=%s(%s)" % (info["name"], ", ".join(parts))))
     out = []
+    # the parameter type holds the value's static type S, the pattern type and a marker, so neither
+    # acceptance nor rejection can be decided at compile time: the test runs
+    broad = "(%s | 't | Zq)" % st if st != ty else "(%s | Zq)" % st
     for form, pat in forms:
-        head = "\n".join(aliases) + "\nf = #(%s | Zq) { | %s => Ok | No }" % (st, pat)
+        head = "\n".join(aliases) + "\nf = #%s { | %s => Ok | No }" % (broad, pat)
         out.append((form, head + "\n" + val + " f", head + "\n#{ " + val + " f }"))
+    # a receive source's parameter type: the message W[v] is offered to `#W['t]`; if the mailbox
+    # filter (function_param_compatibility) refuses it the select times out and the message is
+    # taken by the second, broad receive
+    recv = ("'t = %s\np = @#{ ! [#W['t], 5] { | =[] => { !#W[(%s | Zq)], No } | Ok } }\nW[%s] p\n!p"
+            % (ty, st, render_value(g, v, False)))
+    out.append(("receive", recv, None))
     return out
 
 
@@ -1036,7 +1045,8 @@ def run_c08(prop, tier):
                 except common.ToolError as e:
                     crashes.append((one["id"], str(e)[-200:]))
     # (ii) tree-shaken
-    lines = [json.dumps({"id": pi, "src": shaken}) + "\n" for pi, (_, _, _, shaken) in enumerate(progs)]
+    lines = [json.dumps({"id": pi, "src": shaken if shaken else "0"}) + "\n"
+             for pi, (_, _, _, shaken) in enumerate(progs)]
     shaken_out, shaken_crashed = run_stream_bin("typesrun", lines)
     check.cov["t_run_s"] = round(time.time() - t0, 1)
     dead = {i for i, _ in shaken_crashed}
